@@ -110,7 +110,8 @@ DeleteD(d) == /\ st = "open" /\ d \in vds
 
 \* through an attached handle: name, class, ordered member list, membership tests
 Info(g) == /\ st = "open" /\ Attached(g)
-           /\ Log("Info", [g |-> g], [name |-> vgs[g].name, class |-> vgs[g].class, mem |-> vgs[g].mem, n |-> Len(vgs[g].mem)])
+           \* (agree: the member list asked for one member at a time, in a shorter request, and as per-tag counts is the same list)
+           /\ Log("Info", [g |-> g], [name |-> vgs[g].name, class |-> vgs[g].class, mem |-> vgs[g].mem, n |-> Len(vgs[g].mem), agree |-> TRUE])
            /\ UNCHANGED <<st, vgs, vds, ng>>
 Inq(g, m) == /\ st = "open" /\ Attached(g) /\ (m \in AllG \cup AllD \cup Raws)
              /\ Log("Inq", [g |-> g, m |-> m], [member |-> m \in SeqSet(vgs[g].mem)])
